@@ -626,8 +626,13 @@ class World:
         from .preempt import run_preemptive
         _, seed, tasks, p_cold, p_hot = op[:5]
         p_exc = op[5] if len(op) > 5 else 0.0
+        pin = op[6] if len(op) > 6 else None
         res = run_preemptive(seed, [tuple(t) for t in tasks], p_cold, p_hot,
-                             {"monitor_counters": False}, p_exc)
+                             {"monitor_counters": False}, p_exc, pin)
+        if pin:
+            self.probe("e3_pinned_worlds")
+            if res.excursions:
+                self.probe("e3_pinned_excursions")
         base = 1000 * (1 + sum(1 for o in self.ops[:-1] if o[0] == "e3"))
         for i, tw in enumerate(res.worlds):
             if tw is None:
